@@ -10,6 +10,7 @@ import (
 
 	"github.com/256dpi/gomqtt/broker"
 	"github.com/256dpi/gomqtt/packet"
+	"github.com/256dpi/gomqtt/session"
 
 	"verif/explore"
 	"verif/h/env"
@@ -21,6 +22,7 @@ type params struct {
 	Mode   string // live | resume
 	Window int
 	Msgs   int
+	Queue  int // session queue capacity (0 = 32); 1 makes the subscribers' queues fill up, so that publishes wait for room
 }
 
 func init() {
@@ -122,7 +124,11 @@ func live(x *explore.X, pr params) {
 	pa := patterns[vrt.Choose(len(patterns), "pattern-p1")]
 	pb := patterns[vrt.Choose(len(patterns), "pattern-p2")]
 	vrt.Quiet(true)
-	w := env.NewWorld(x, func(m *broker.MemoryBackend) { m.ClientInflightMessages = pr.Window; m.SessionQueueSize = 32 })
+	qcap := 32
+	if pr.Queue > 0 {
+		qcap = pr.Queue
+	}
+	w := env.NewWorld(x, func(m *broker.MemoryBackend) { m.ClientInflightMessages = pr.Window; m.SessionQueueSize = qcap })
 	s1 := w.NewClient("s1")
 	s1.Connect(true, nil)
 	s1.Send(env.Subscribe(1, packet.Subscription{Topic: "t", QOS: 2}))
@@ -169,6 +175,22 @@ func resume(x *explore.X, pr params) {
 	h := w.NewClient("h")
 	h.Connect(true, nil)
 	w.Run(s, h)
+	if vrt.Choose(2, "packet-ids-wrap") == 1 {
+		// the subscriber's session is about to wrap its 16-bit packet id counter: ids 65534, 65535, 1, ...
+		wrapped := false
+		for _, e := range w.Rec.Calls("Setup", s.Name) {
+			if e.Client != nil && e.Client.Session() != nil {
+				if ms, ok := env.Peek(e.Client.Session(), "MemorySession").(*session.MemorySession); ok && ms != nil {
+					ms.Counter = session.NewIDCounterWithNext(65534)
+					wrapped = true
+				}
+			}
+		}
+		if !wrapped {
+			x.Failf("setup", "no-session-counter", "the broker-side session of the subscriber could not be reached")
+			return
+		}
+	}
 	for i := 0; i < pr.Window+1; i++ {
 		h.Pub("t", fmt.Sprintf("h/q%d/%d", q, i), q, false)
 		w.Run(s, h)
@@ -237,10 +259,12 @@ func run(r *report.Report) {
 		bound int
 	}
 	cfgs := []c{{"resume-w2", params{Mode: "resume", Window: 2}, 2}, {"resume-w3", params{Mode: "resume", Window: 3}, 2},
-		{"live-w1", params{Mode: "live", Window: 1, Msgs: 2}, 1}, {"live-w2", params{Mode: "live", Window: 2, Msgs: 3}, 1}}
+		{"live-w1", params{Mode: "live", Window: 1, Msgs: 2}, 1}, {"live-w2", params{Mode: "live", Window: 2, Msgs: 3}, 1},
+		{"live-w1-full-queue", params{Mode: "live", Window: 1, Msgs: 3, Queue: 1}, 1}}
 	if th {
 		cfgs = []c{{"resume-w2", params{Mode: "resume", Window: 2}, 4}, {"resume-w3", params{Mode: "resume", Window: 3}, 3}, {"resume-w4", params{Mode: "resume", Window: 4}, 3},
-			{"live-w1", params{Mode: "live", Window: 1, Msgs: 3}, 2}, {"live-w2", params{Mode: "live", Window: 2, Msgs: 3}, 2}}
+			{"live-w1", params{Mode: "live", Window: 1, Msgs: 3}, 2}, {"live-w2", params{Mode: "live", Window: 2, Msgs: 3}, 2},
+			{"live-w1-full-queue", params{Mode: "live", Window: 1, Msgs: 3, Queue: 1}, 2}}
 	}
 	// client library: inbound messages reach the callback in arrival order; service commands are executed first-in first-out
 	d10, d17 := 6, 5
@@ -260,7 +284,7 @@ func run(r *report.Report) {
 		if cf.p.Mode == "resume" {
 			tag = "multi-retransmission"
 		}
-		r.AddExploration(cf.name, mode, fmt.Sprintf("mode %s, window %d, delay/map-order bound %d", cf.p.Mode, cf.p.Window, cf.bound), st,
+		r.AddExploration(cf.name, mode, fmt.Sprintf("mode %s, window %d, session queue capacity %d (0 = 32), delay/map-order bound %d", cf.p.Mode, cf.p.Window, cf.p.Queue, cf.bound), st,
 			"live: every schedule of the publish/deliver/acknowledge race within the bound (non-trivial = executions); resume: every map order / schedule of the retransmission phase (non-trivial = executions with >= 2 retransmitted packets)", tag)
 	}
 }
